@@ -384,6 +384,15 @@ impl TaskState<'_> {
 
 impl Drop for TaskState<'_> {
     fn drop(&mut self) {
+        // This task may be destroyed while it's sleeping, for example when
+        // it's cancelled. Wakers can outlive the task, and destructors of the
+        // futures below can invoke them too, so make sure that they don't
+        // consider this task to be sleeping and try to signal an inter-task
+        // stream that's no longer being read.
+        self.shared
+            .sleep_state
+            .store(SLEEP_STATE_WOKEN, Ordering::Relaxed);
+
         // If there's an active read of the inter-task stream, go ahead and
         // cancel it, since we're about to drop the stream anyway.
         self.cancel_inter_task_stream_read();
